@@ -97,7 +97,7 @@ def r2_inplace(rep, facts):
                 for extra in pn[1:]:
                     env[extra] = sample() if extra == pn[-1] else 0
                 try:
-                    it.val(b['body'], env)
+                    it.run_body(b, env)
                 except EvalPanic:
                     pass            # e.g. replace_formatted(0, ..) on an empty array: a documented panic, nothing was stored before it
                 except Exception as ex:
